@@ -884,7 +884,9 @@ func (u *Unit) callSiteObligationsNamed(f *Frame, st *State, short, lk, key stri
 		if cs.Callee != short && cs.Callee != lk && cs.Callee != key {
 			continue
 		}
+		f.envPos = pos
 		env := u.loopEnv(f, st, f.fn, -1)
+		f.envPos = token.NoPos
 		vars := map[string]Val{}
 		for k, v := range env.vars {
 			vars[k] = v
